@@ -316,6 +316,8 @@ func c08(p *model.Prog, r *report.Result) {
 	c08r7(p, r, runLoop)
 	c08r89(p, r, calc, runLoop)
 	c08r1011(p, r, runLoop)
+	w5PackerMsgLen(p, r, "C08.R15")
+	w5CsidForms(p, r, "C08.R16")
 	c08r1314(p, r, runLoop)
 }
 
